@@ -58,6 +58,43 @@ pub fn de<G: SerdeGlue>(f: Fmt, p: Pos, bytes: &[u8]) -> DeObs {
     }
 }
 
+/// `Deserialize::deserialize_in_place` (public, doc-hidden serde API that safe code - and serde's own `Vec<T>` impl - can call) into an existing
+/// valid value built from `seed`. Returns (result of the call, what the place holds afterwards); for `vec` the place is a two-element Vec.
+pub fn de_in_place<G: SerdeGlue>(f: Fmt, bytes: &[u8], seed: &Value, vec: bool) -> Option<(Result<(), String>, Vec<Value>)> {
+    use serde::Deserialize;
+    fn run<'a, X: Deserialize<'a>>(f: Fmt, bytes: &'a [u8], place: &mut X) -> Result<(), String> {
+        match f {
+            Fmt::Json => {
+                let mut d = serde_json::Deserializer::from_slice(bytes);
+                Deserialize::deserialize_in_place(&mut d, place).map_err(|e| e.to_string())
+            }
+            Fmt::Ron => {
+                let mut d = ron::de::Deserializer::from_bytes(bytes).map_err(|e| e.to_string())?;
+                Deserialize::deserialize_in_place(&mut d, place).map_err(|e| e.to_string())
+            }
+            Fmt::MsgPack => {
+                let mut d = rmp_serde::Deserializer::new(bytes);
+                Deserialize::deserialize_in_place(&mut d, place).map_err(|e| e.to_string())
+            }
+        }
+    }
+    if vec {
+        let mut place: Vec<G::T> = vec![G::t_make(seed)?, G::t_make(seed)?];
+        let r = match guarded(|| run(f, bytes, &mut place)) {
+            Ok(r) => r,
+            Err(p) => Err(format!("PANIC({p})")),
+        };
+        Some((r, place.into_iter().map(G::t_inner).collect()))
+    } else {
+        let mut place: G::T = G::t_make(seed)?;
+        let r = match guarded(|| run(f, bytes, &mut place)) {
+            Ok(r) => r,
+            Err(p) => Err(format!("PANIC({p})")),
+        };
+        Some((r, vec![G::t_inner(place)]))
+    }
+}
+
 pub fn de_ref<G: SerdeGlue>(f: Fmt, p: Pos, bytes: &[u8]) -> Result<Vec<Value>, String> {
     match guarded(|| de_pos::<G::R>(f, p, bytes)) {
         Err(pm) => Err(format!("reference panicked: {pm}")),
